@@ -6,7 +6,8 @@ from common import *  # noqa
 import framework as fw
 import diffrun
 
-MODULE = ["LWV.Props.C20", "LWV.Props.C20Full"]
+MODULE = ["LWV.Props.C20", "LWV.Props.C20Full", "LWV.Props.C20Machine"]
+LAST_SEC = 9223372036854   # (2^63 - 1) div 10^6
 
 
 def parse(o):
@@ -18,22 +19,26 @@ def parse(o):
 
 def grid(seed, tier):
     subs = [0, 1, 999, 1000, 1001, 999999, 1000000, 1000001, 499999999, 999999000, 999999998, 999999999]
-    secs = [0, 1, 2, 59, 60, 1000, 1700000000, 1700000001, 2 ** 31 - 1, 2 ** 31, 2 ** 32, 2 ** 43 - 2, 2 ** 43 - 1]
-    pts = [(s, n) for s in secs for n in subs]
+    secs = [0, 1, 2, 59, 60, 1000, 1700000000, 1700000001, 2 ** 31 - 1, 2 ** 31, 2 ** 32, 2 ** 43 - 2, 2 ** 43 - 1,
+            # beyond the old 2^43 guard, up to the last second on which the C is defined (C20_machine_iff)
+            2 ** 43, 2 ** 43 + 1, 10 ** 12, 2 ** 53, LAST_SEC - 1, LAST_SEC]
+    pts = [(s, n) for s in secs for n in subs] + [(LAST_SEC, 775807000), (LAST_SEC, 775807999)]
     rnd = random.Random(seed)
     for _ in range(400 if tier == "quick" else 20000):
-        s = rnd.choice([rnd.randrange(0, 2 ** 43), rnd.randrange(0, 4 * 10 ** 9), rnd.choice(secs)])
+        s = rnd.choice([rnd.randrange(0, 2 ** 43), rnd.randrange(2 ** 43, LAST_SEC + 1), rnd.randrange(0, 4 * 10 ** 9), rnd.choice(secs)])
         pts.append((s, rnd.choice([rnd.randrange(0, 10 ** 9), rnd.choice(subs)])))
         if rnd.random() < 0.5:  # a close successor, often across the second boundary
             d = rnd.choice([1, 999, 1000, 10 ** 6, 10 ** 9 - 1])
             s2, n2 = pts[-1]
             n2 += d
             pts.append((s2 + n2 // 10 ** 9, n2 % 10 ** 9))
-    return sorted(set(pts))
+    # readings whose microsecond value does not fit a signed 64-bit long are undefined in the C
+    # (C20_machine_first_undefined) and are not injected
+    return sorted(p for p in set(pts) if p[0] * 10 ** 6 + p[1] // 1000 < 2 ** 63)
 
 
 def check(ctx):
-    ctx.rule = ("clock readings injected with -Wl,--wrap=clock_gettime: a grid of seconds x sub-second extremes (every second boundary) "
+    ctx.rule = ("clock readings injected with -Wl,--wrap=clock_gettime: a grid of seconds x sub-second extremes (every second boundary), up to the last reading on which the C is defined (9223372036854 s 775807999 ns), "
                 "plus seeded random readings and their close successors; libwifi_get_epoch and bytes 24..31 of a generated beacon, "
                 "probe response and timing advertisement; ALL ordered pairs of adjacent readings in sorted order are compared "
                 "(monotonicity over a sorted sequence implies it for every pair); distinct = distinct clock reading")
